@@ -98,6 +98,8 @@ func verifyFunction(w *World, specs *Specs, tt *TypeTable, fn *ssa.Function, c *
 		st.assume = append(st.assume, not(eq(st.vals[fn.Params[0]].T, "0")))
 	}
 	vc.curState = st
+	// global invariant of the engine-maintained thread counters
+	st.assume = append(st.assume, app("<=", vc.hget(st.heap, "GV_Joined", "Int"), vc.hget(st.heap, "GV_Forks", "Int")))
 	if vc.effective.Thread {
 		// a thread knows its own identity through the ghost variable CurTid
 		st.assume = append(st.assume, eq(vc.hget(st.heap, "GV_CurTid", "Int"), vc.d.declConst("tid_self", "Int")))
